@@ -17,6 +17,7 @@ func TestListProps(t *testing.T) {
 		Name  string `json:"name"`
 		Share int    `json:"share"`
 		Race  bool   `json:"race"`
+		Sweep int    `json:"sweep"`
 	}
 	type prop struct {
 		ID       string `json:"id"`
@@ -28,7 +29,7 @@ func TestListProps(t *testing.T) {
 	for _, p := range Properties {
 		pp := prop{ID: p.ID, Quick: p.Quick, Thorough: p.Thorough}
 		for _, f := range p.Profiles {
-			pp.Profiles = append(pp.Profiles, prof{f.Name, f.Share, f.Race})
+			pp.Profiles = append(pp.Profiles, prof{f.Name, f.Share, f.Race, f.Sweep})
 		}
 		out = append(out, pp)
 	}
